@@ -413,8 +413,46 @@ func runLBHealth(x *X) {
 		return
 	}
 
+	crowdDone := false
 	for i := 0; i < nSteps && !x.dead; i++ {
-		switch c.Pick([]int{8, 4, 3, 4, 2, 2, 2, 2, 2, 1, 1, 2, 2, 2, 2}, "step") {
+		crowdW := 0
+		if strategy == "least_connections" || c.Intn(6, "crowd-any-strategy") == 0 {
+			crowdW = 1
+		}
+		switch c.Pick([]int{8, 4, 3, 4, 2, 2, 2, 2, 2, 1, 1, 2, 2, 2, 2, crowdW}, "step") {
+		case 15: // a crowd: well over a hundred slow requests are in flight on every backend when the next
+			// one arrives. Busy is not unhealthy: whoever is outside every window is still eligible
+			// (the request may queue at the backend; it is not told that nobody is there)
+			if crowdDone {
+				continue
+			}
+			crowdDone = true
+			per := 100 + c.Intn(30, "crowd-per-backend")
+			var plans []*reqPlan
+			for j := 0; j < per*nb && !x.dead; j++ {
+				p := &reqPlan{hold: true}
+				plans = append(plans, p)
+				cl := manyClients[j%len(manyClients)]
+				s.Spawn("crowd", func() { h.do(reqSpec{client: cl, path: "/crowd", plan: p}) })
+			}
+			x.Settle(onErr)
+			for j := 0; j < 3 && !x.dead; j++ {
+				cl := manyClients[(i+j)%len(manyClients)]
+				s.Spawn("late", func() { h.do(reqSpec{client: cl, path: "/behind-the-crowd"}) })
+				x.Settle(onErr)
+			}
+			net.mu.Lock()
+			for _, p := range plans {
+				p.released = true
+			}
+			net.mu.Unlock()
+			x.RunTasks(onErr)
+			x.Probe("request-behind-a-crowd")
+			steps = append(steps, fmt.Sprintf("crowd(%d per backend)", per))
+			if !stepObserve() {
+				break
+			}
+			continue
 		case 14: // biased pattern: everybody is ejected at one instant; a request arrives a moment before
 			// the windows end (and is rightly told that nobody is available), the next ones a moment
 			// after: whatever the balancer remembers from the first look must not outlive the windows
